@@ -432,7 +432,7 @@ theorem gen_mono (Δ : Decls) (o : Opts) : ∀ (f : Nat),
         | bool | int _ | float _ | string | bytes | time | array _ _ =>
           simp only [genBody]; exact custom_mono o nm (_, σ)
         | ptr _ => simp only [genBody]; exact Mono.refl σ
-        | defd _ t => simp only [genBody]; exact ihB _ _ _ _ _ σ
+        | defd _ t => simp only [genBody]; split <;> first | exact Mono.refl σ | exact ihB _ _ _ _ _ σ
         | slice e =>
           simp only [genBody]
           split
@@ -878,6 +878,15 @@ theorem gen_good (Δ : Decls) (o : Opts) : ∀ (f : Nat),
         | ptr x => simp [isPtr] at hpb
         | defd n t =>
           simp only [genBody] at ha ⊢
+          by_cases hsk : isStructKind t = true
+          · simp only [hsk, if_true]
+            refine ⟨hi, fun s hs => ?_⟩
+            cases hs
+            unfold isStructKind at hsk
+            simp only [RelN, leaf, RelS, stripPtr, isPtr, under]
+            refine ⟨fun h => Or.inl h, by simp, ?_⟩
+            cases hu : under t <;> simp [hu] at hsk ⊢ <;> simp [RelProps]
+          simp only [hsk, if_false, Bool.false_eq_true] at ha ⊢
           by_cases hp : isPtr t = true
           · obtain ⟨x, rfl⟩ := isPtr_elim hp
             cases f with
